@@ -171,7 +171,24 @@ pub fn build(spec: &Spec) -> Vec<u8> {
         pi16(&mut cvt, *v);
     }
 
+    // cmap: one format 12 group 'A'.. -> glyph 1.. (klippa's plan requires a cmap)
+    let mut cmap = vec![];
+    p16(&mut cmap, 0);
+    p16(&mut cmap, 1);
+    p16(&mut cmap, 3);
+    p16(&mut cmap, 10);
+    p32(&mut cmap, 12);
+    p16(&mut cmap, 12);
+    p16(&mut cmap, 0);
+    p32(&mut cmap, 28);
+    p32(&mut cmap, 0);
+    p32(&mut cmap, 1);
+    p32(&mut cmap, 0x41);
+    p32(&mut cmap, 0x41 + (n.max(2) as u32 - 2));
+    p32(&mut cmap, 1);
+
     let mut fb = FontBuilder::new();
+    fb.add_raw(Tag::new(b"cmap"), cmap);
     fb.add_raw(Tag::new(b"head"), head);
     fb.add_raw(Tag::new(b"hhea"), hhea);
     fb.add_raw(Tag::new(b"hmtx"), hmtx);
@@ -192,8 +209,8 @@ pub fn build(spec: &Spec) -> Vec<u8> {
 
 // ------------------------------------------------------------------------------- bytecode
 
-const PUSHB1: u8 = 0xB0;
-const PUSHW1: u8 = 0xB8;
+pub const PUSHB1: u8 = 0xB0;
+pub const PUSHW1: u8 = 0xB8;
 const ADD: u8 = 0x60;
 const MUL: u8 = 0x63;
 
@@ -343,7 +360,7 @@ fn test_program(rng: &mut Rng, opcode: u8) -> Vec<u8> {
     code
 }
 
-fn triangle(instructions: Vec<u8>, big: bool) -> Glyph {
+pub fn triangle(instructions: Vec<u8>, big: bool) -> Glyph {
     let pts = if big {
         vec![(-32768, -32768, true), (32767, -32768, false), (32767, 32767, true), (-32768, 32767, true), (0, 0, true)]
     } else {
@@ -352,7 +369,7 @@ fn triangle(instructions: Vec<u8>, big: bool) -> Glyph {
     Glyph { points: pts, ends: vec![3, 4], instructions }
 }
 
-fn hint_draw(ex: &mut Explorer, label: &dyn Fn() -> String, bytes: &[u8], n_glyphs: u32, ppems: &[f32]) {
+pub fn hint_draw(ex: &mut Explorer, label: &dyn Fn() -> String, bytes: &[u8], n_glyphs: u32, ppems: &[f32]) {
     let Ok(font) = FontRef::new(bytes) else { return };
     let outlines = font.outline_glyphs();
     for &ppem in ppems {
@@ -384,6 +401,12 @@ fn hint_draw(ex: &mut Explorer, label: &dyn Fn() -> String, bytes: &[u8], n_glyp
                 }
             }
         }
+    }
+    // the error / success distribution of this call (thread local: callers may be worker threads)
+    let errs = ERRS.with(|c| std::mem::take(&mut *c.borrow_mut()));
+    for e in errs {
+        let key = if e == "draw:ok" { "draw-ok" } else if e.starts_with("draw:") { "draw-hint-error" } else { "instance-error" };
+        ex.count(&format!("synth:{key}"));
     }
 }
 
@@ -469,7 +492,31 @@ pub fn run(cfg: &Config, ex: &mut Explorer, rng: &mut Rng) {
     let errs = ERRS.with(|c| std::mem::take(&mut *c.borrow_mut()));
     for e in errs {
         let key = if e == "draw:ok" { "draw-ok" } else if e.starts_with("draw:") { "draw-hint-error" } else { "instance-error" };
-        ex.s.count(&format!("synth:{key}"));
+        ex.count(&format!("synth:{key}"));
     }
-    ex.s.notes.push(format!("synthetic fonts: {n_fonts} ({:.1}s)", t0.elapsed().as_secs_f64()));
+    ex.notes.push(format!("synthetic fonts: {n_fonts} ({:.1}s)", t0.elapsed().as_secs_f64()));
+}
+
+/// synthetic base fonts for the field-extremes family (explore.rs / fields.rs): a metric font, a
+/// bytecode font with fpgm/prep/cvt and one with extreme coordinates
+pub fn field_bases() -> Vec<(String, Vec<u8>)> {
+    let fpgm: Vec<u8> = vec![PUSHB1, 0, 0x2C, 0x21, 0x2D];
+    let mut out = vec![];
+    for (name, upem, big) in [("synth-hinted-1000", 1000u16, false), ("synth-hinted-16384-big", 16384, true)] {
+        // prep: a DELTAC exception at ppem 16 (delta base 9 + 7) and a cvt write
+        let prep = vec![PUSHB1, 3, 0x5E, 0xB2, 0x7F, 0x00, 0x01, 0x73, 0xB1, 1, 64, 0x44];
+        let glyph_prog = vec![PUSHB1, 0, 0x2E, 0xB2, 0x78, 1, 1, 0x5D, PUSHB1, 2, 0x3E];
+        let spec = Spec {
+            upem,
+            advances: vec![(500, 10), (0xFFFF, -32768), (0, 32767)],
+            glyphs: vec![triangle(glyph_prog, big), triangle(vec![], big), Glyph { points: vec![], ends: vec![], instructions: vec![] }],
+            cvt: vec![0, 64, -64, 32767],
+            fpgm: fpgm.clone(),
+            prep,
+            ascender: 800,
+            descender: -200,
+        };
+        out.push((name.to_string(), build(&spec)));
+    }
+    out
 }
